@@ -305,3 +305,32 @@ Proof.
   assert (k = 1 \/ k = 2 \/ k = 3 \/ k = 4 \/ k = 5 \/ k = 6 \/ k = 7 \/ k = 8 \/ k = 9 \/ k = 10) as C by lia.
   repeat (destruct C as [->|C]; [reflexivity|]). subst. reflexivity.
 Qed.
+
+(* the flag computed by the public resolution does not depend on the receiver's identity or current pair *)
+Lemma resolve_flag_indep p q g h n As from : forall res bad i1 i2 sg1 ta1 sg2 ta2 r1 r2,
+  resolve p q g h n i1 As from res bad sg1 ta1 = Some r1 ->
+  resolve p q g h n i2 As from res bad sg2 ta2 = Some r2 -> fst (fst r1) = fst (fst r2).
+Proof.
+  induction from as [|j from IH]; intros res bad i1 i2 sg1 ta1 sg2 ta2 r1 r2 E1 E2; cbn [resolve] in E1, E2.
+  - injection E1 as <-. injection E2 as <-. reflexivity.
+  - destruct res as [|w [|f [|b res']]]; try (injection E1 as <-; injection E2 as <-; reflexivity).
+    destruct ((n <=? who_of w) || negb (who_of w =? j)); [injection E1 as <-; injection E2 as <-; reflexivity|].
+    destruct (share_ok _ _ _ _ _ _ _) as [[|]|]; [| |discriminate].
+    + destruct (who_of w =? i1), (who_of w =? i2); eapply IH; eauto.
+    + eapply IH; eauto.
+Qed.
+
+(* the verdict of a receiver depends on its own pair only through its complaint bit *)
+Theorem verdict_from_broadcasts p q g h n t i1 i2 d As s1 t1 s2 t2 streams res o1 o2 c :
+  recv_complaint p q g h As (i1 + 1) s1 t1 = Some c -> recv_complaint p q g h As (i2 + 1) s2 t2 = Some c ->
+  vss_receive p q g h n t i1 d As s1 t1 streams res = Some o1 ->
+  vss_receive p q g h n t i2 d As s2 t2 streams res = Some o2 -> vo_ret o1 = vo_ret o2.
+Proof.
+  intros C1 C2 E1 E2. unfold vss_receive in *. rewrite C1 in E1. rewrite C2 in E2.
+  destruct (disqualified t _); [injection E1 as <-; injection E2 as <-; reflexivity|].
+  destruct (0 <? _); [|injection E1 as <-; injection E2 as <-; reflexivity].
+  destruct (resolve p q g h n i1 _ _ _ _ _ _) as [[[b1 sg1] ta1]|] eqn:R1; [|discriminate].
+  destruct (resolve p q g h n i2 _ _ _ _ _ _) as [[[b2 sg2] ta2]|] eqn:R2; [|discriminate].
+  injection E1 as <-. injection E2 as <-. cbn [vo_ret].
+  pose proof (resolve_flag_indep _ _ _ _ _ _ _ _ _ _ _ _ _ _ _ _ _ R1 R2) as F. cbn [fst] in F. now rewrite F.
+Qed.
